@@ -15,6 +15,9 @@ extern "C" long model_strtol(const char *s, char **end, int base) {
     if (live && !(c >= '0' && c <= '9')) live = false;
     if (live) { nd++; if (nd <= 18) v = (v << 3) + (v << 1) + (unsigned long)(c - '0'); }
   }
+  // arithmetic fact about decimal notation, stated as an assumption of the model: a numeral of nd digits denotes a value below 10^nd
+  static const unsigned long P10[13] = {1UL, 10UL, 100UL, 1000UL, 10000UL, 100000UL, 1000000UL, 10000000UL, 100000000UL, 1000000000UL, 10000000000UL, 100000000000UL, 1000000000000UL};
+  if (nd <= 12) __CPROVER_assume(v < P10[nd]);
   return nd > 18 ? 9223372036854775807L : (long)v;
 }
 // digits >= "2147483647" as numbers (no leading zeros): more digits, or equally many and lexicographically not smaller
@@ -38,6 +41,10 @@ static std::string sym_literal(unsigned long &value) {
   for (int i = 0; i < LIT_MAXLEN; i++) {
     int d = nondet_int(); ASSUME(d >= 0 && d <= 9);
     if (i == 0 && n > 1) ASSUME(d >= 1);     // no leading zero
+#ifdef LIT_BOUNDARY
+    // boundary query: the ten-digit literals 21474836dd around 2^31-1 (the general ten-digit query is arithmetic-heavy and runs in the thorough tier)
+    { static const int PFX[8] = {2, 1, 4, 7, 4, 8, 3, 6}; if (i < 8) d = PFX[i]; }
+#endif
     CEX_digit[i] = d; g_digits[i] = d;
     if (i < n) s.__push((char)('0' + d));
   }
